@@ -4,7 +4,7 @@
     unit `connaccept`. [tagf] is the Retry integrity tag function (AES-128-GCM in the code): every
     theorem holds for every such function. Only statements live here. *)
 From Coq Require Import List ZArith Bool.
-From V Require Import Gen.Params Lib.Hex ConnAccept.Model ConnAccept.Proofs.
+From V Require Import Gen.Params Lib.Hex ConnAccept.Model ConnAccept.Proofs ServerAccept.Model ServerAccept.Proofs EarlyData.Model EarlyData.Proofs.
 Import ListNotations.
 Open Scope Z_scope.
 
@@ -174,3 +174,122 @@ Example C13_regression_vn_then_flight :
   run ex_tagf s0 (tl ops) = (record_pn (first_packet s0 [4;4]) 0, [OProcessed; OTPOk]).
 Proof. split; vm_compute; reflexivity. Qed.
 Print Assumptions C13_regression_vn_then_flight.
+
+(** ---- server side (model ServerAccept of server.go, tied by unit `serveraccept`) ---- *)
+
+(** A Version Negotiation packet is never answered: it is dropped, nothing is queued, created or routed
+    (only the periodic clean-up of expired 0-RTT queues may run). No reflection loop. *)
+Theorem C13_server_vn_not_answered : forall c s now, exists s',
+  recv c s now SPvn = (s', SDrop false) /\ (s' = s \/ s' = cleanup s now).
+Proof. exact vn_not_answered. Qed.
+Print Assumptions C13_server_vn_not_answered.
+
+(** Over any input: every Version Negotiation packet the server sends answers a datagram of an unsupported version
+    of at least MinUnknownVersionPacketSize (= 1200) bytes from that address, with version negotiation enabled. *)
+Theorem C13_server_vn_only_for_big_unsupported : forall c ops s' outs l a d sc,
+  srun c s0 ops = (s', outs) -> In (SDrained l) outs -> In (0, a, d, sc) l ->
+  exists now size, In (SRecv now (SPunsupported size a)) ops /\ saMinUnknownVersionPacketSize <= size /\ disableVN c = false.
+Proof. exact sa_vn_sends. Qed.
+Print Assumptions C13_server_vn_only_for_big_unsupported.
+
+(** Over any input: every Retry the server sends answers an Initial of at least 1200 bytes that carried no usable
+    token (none, undecodable, or an invalid NEW_TOKEN token) and came from an address for which
+    VerifySourceAddress demands verification; it is addressed to that address, DCID and SCID.
+    (Its token is NewRetryToken(address, that DCID, fresh SCID): C14_retry_token_cids / C14_issued_token_validates.) *)
+Theorem C13_server_retry_only_when_required : forall c ops s' outs l a d sc,
+  srun c s0 ops = (s', outs) -> In (SDrained l) outs -> In (3, a, d, sc) l ->
+  exists o, In o ops /\ retry_cause c a d sc o.
+Proof. exact sa_retry_sends. Qed.
+Print Assumptions C13_server_retry_only_when_required.
+
+(** Answering with a Retry creates no state: no connection, no routing entry, and the 0-RTT queue of that DCID is gone. *)
+Theorem C13_server_retry_stateless : forall c s now p s1 o q,
+  recv_core c s now p = (s1, o) -> o = SRetry q ->
+  exists size dcid scid tok addr intact newcid,
+    p = SPinitial size dcid scid tok addr intact newcid /\
+    saMinInitialPacketSize <= size /\ hget dcid (handlers s) = None /\ usable tok = false /\
+    zmem addr (verifyAddrs c) = true /\
+    handlers s1 = handlers s /\ nconn s1 = nconn s /\ created s1 = created s /\ zget dcid (zq s1) = None /\
+    retryq s1 = (if q then retryq s ++ [(addr, dcid, scid, intact)] else retryq s).
+Proof. exact retry_core. Qed.
+Print Assumptions C13_server_retry_stateless.
+
+(** Over any input: at most one connection per client-chosen DCID, every created connection stays routed under it,
+    and a connection created for an address that must be verified carries a token valid for that address. *)
+Theorem C13_server_connections : forall c ops s' outs, srun c s0 ops = (s', outs) ->
+  NoDup (map (fun x => match x with (_, d, _, _) => d end) (created s')) /\
+  (forall n d a v, In (n, d, a, v) (created s') -> hget d (handlers s') <> None) /\
+  (forall n d a v, In (n, d, a, v) (created s') -> zmem a (verifyAddrs c) = true -> v = true).
+Proof. exact sa_conns. Qed.
+Print Assumptions C13_server_connections.
+
+(** A further Initial for a DCID that has a connection goes to that connection. *)
+Theorem C13_server_duplicate_routed : forall c s now size dcid scid tok addr intact newcid n,
+  saMinInitialPacketSize <= size -> (tok_empty tok && (zlen dcid <? saMinConnectionIDLenInitial)) = false ->
+  hget dcid (handlers s) = Some n ->
+  recv_core c s now (SPinitial size dcid scid tok addr intact newcid) = (s, SRouted n).
+Proof. exact routed_core. Qed.
+Print Assumptions C13_server_duplicate_routed.
+
+(** Over any input: at most Max0RTTQueues (32) 0-RTT queues of at most Max0RTTQueueLen (31) packets; none at all
+    unless early connections are accepted. *)
+Theorem C13_server_0rtt_queue_bounds : forall c ops s' outs, srun c s0 ops = (s', outs) ->
+  zlen (zq s') <= saMax0RTTQueues /\ (forall k n e, In (k, (n, e)) (zq s') -> n <= saMax0RTTQueueLen) /\
+  (acceptEarly c = false -> zq s' = []).
+Proof. exact sa_zq_bounds. Qed.
+Print Assumptions C13_server_0rtt_queue_bounds.
+
+Theorem C13_server_constants : saMinUnknownVersionPacketSize = 1200 /\ saMinInitialPacketSize = 1200 /\
+  saMax0RTTQueues = 32 /\ saMax0RTTQueueLen = 31.
+Proof. exact sa_constants. Qed.
+Print Assumptions C13_server_constants.
+
+(** non-vacuity: verification required for address 7; an Initial without token gets a Retry and no state, the same
+    DCID with a valid Retry token creates the (one) connection, a third Initial is routed to it, a VN packet and a
+    small unsupported-version datagram are ignored, a big one is answered *)
+Example C13_server_example :
+  let c := mkCfg false true [7] [] in
+  let ops := [ SRecv 1 (SPinitial 1200 [1;2;3;4;5;6;7;8] [9] TkNone 7 true []);
+               SDrain;
+               SRecv 2 (SPinitial 1200 [5;5;5;5] [9] (TkRetry true [1;2;3;4;5;6;7;8] [5;5;5;5]) 7 true [6;6]);
+               SRecv 3 (SPinitial 1250 [5;5;5;5] [9] (TkRetry true [1;2;3;4;5;6;7;8] [5;5;5;5]) 7 true [8;8]);
+               SRecv 4 SPvn; SRecv 5 (SPunsupported 1199 3); SRecv 6 (SPunsupported 1200 3); SDrain ] in
+  snd (srun c s0 ops) =
+  [ SRetry true; SDrained [(3, 7, [1;2;3;4;5;6;7;8], [9])];
+    SNewConn 0 [1;2;3;4;5;6;7;8] (Some [5;5;5;5]) true 0 0; SRouted 0;
+    SDrop false; SDrop false; SQueuedVN; SDrained [(0, 3, [], [])] ].
+Proof. vm_compute. reflexivity. Qed.
+Print Assumptions C13_server_example.
+
+(** ---- 0-RTT data (model EarlyData; proof-level, tied to the code by the simhandshake 0-RTT scenarios) ---- *)
+
+(** C13_0rtt_reject_clean. If the server rejects early data, then for every sequence of application writes,
+    packetisations, losses (with retransmission), duplicated / delayed deliveries and whenever the answer arrives:
+    every stream frame handed to the server application was written after the rejection (generation 1: on the
+    re-initialised stream maps, i.e. re-sent by the application as 1-RTT data). None of the 0-RTT bytes. *)
+Theorem C13_0rtt_reject_clean : forall ops f, In f (srv (erun false e0 ops)) -> fgen f = 1.
+Proof. exact reject_clean. Qed.
+Print Assumptions C13_0rtt_reject_clean.
+
+(** ... and as long as the client has not learnt of the rejection the server application gets nothing. *)
+Theorem C13_0rtt_reject_nothing_before : forall ops,
+  decided (erun false e0 ops) = None -> srv (erun false e0 ops) = [].
+Proof. exact reject_nothing_before. Qed.
+Print Assumptions C13_0rtt_reject_nothing_before.
+
+(** Accepted or rejected: only frames the client application wrote are ever handed over (each byte offset at most
+    once to the reader is the receive stream's reassembly, C03 / C01). *)
+Theorem C13_0rtt_only_written : forall a ops f, In f (srv (erun a e0 ops)) -> In f (written (erun a e0 ops)).
+Proof. exact only_written. Qed.
+Print Assumptions C13_0rtt_only_written.
+
+Example C13_0rtt_example :
+  (* rejected: the early frame goes out twice (PTO), both copies arrive and are useless; after the answer the
+     application writes again, that frame is delivered *)
+  srv (erun false e0 [EWrite 0 0 100; EPack 1 1; ELost 1; EPack 2 1; EDeliver 1; EDeliver 2; EDecide false;
+                      EWrite 0 0 50; EPack 3 1; EDeliver 3; EDeliver 1]) = [(1, 0, 0, 50)] /\
+  (* accepted: the early frame is delivered from its 0-RTT packet, a late duplicate hands it over again
+     (the receive stream discards the duplicate) *)
+  srv (erun true e0 [EWrite 0 0 100; EPack 1 1; EDeliver 1; EDecide true; EDeliver 1]) = [(0, 0, 0, 100); (0, 0, 0, 100)].
+Proof. split; vm_compute; reflexivity. Qed.
+Print Assumptions C13_0rtt_example.
